@@ -1,5 +1,7 @@
 """ERR engine: must-check / propagation analysis for OS calls and internal
 status-returning functions, on the structured flow interpreter."""
+import re
+
 from .core import (AnalysisBroken, ConstEval, kids, strip, walk, expr_str, loc_str, qtype, ref_name, ref_decl,
                    callee_name, call_args)
 from .flow import Flow
@@ -226,7 +228,7 @@ class ErrDomain:
         if k == "DeclRefExpr":
             key = self.key_of(e0)
             v = s.get(key) if key else None
-            if isinstance(v, U):
+            if isinstance(v, U) and consumer != "return":
                 self.report("CHK", e0, "result of %s() (%s) is used before it is compared with its failure value"
                             % (v.callee, loc_str(v.node)))
             elif v == FAILED and consumer in ("arg", "deref", "assign"):
@@ -433,3 +435,252 @@ def return_is_failure(prog, dom, n):
     if dom.ret_is_ptr:
         return v == 0
     return v != 0
+
+
+# --------------------------------------------------------------------------
+# C10: propagation of internal failures (PROP) and register-error tests (REGERR)
+# --------------------------------------------------------------------------
+
+AUDITED_IGNORED = {
+    "check_buffer_len": "advisory minimum-length message; the room check before every instruction enforces the same bound",
+}
+
+
+FAIL_MACROS = {"FAIL_IF": "EXIT_FAILURE", "FAIL_IF_MSG": "EXIT_FAILURE", "FAIL_IF_VAR": "EXIT_FAILURE", "FAIL_IF_ERR": "ASM_ERROR"}
+FAILURE_NAMES = {"EXIT_FAILURE": "status", "ASM_ERROR": "sentinel", "INSTR_ERROR": "sentinel", "opd_error": "sentinel"}
+
+
+def failure_name_of_return(prog, m):
+    """the failure constant a return statement names (EXIT_FAILURE, ASM_ERROR, ...), looking at how it is
+    spelled: inside one of the FAIL_* macros, or written directly"""
+    mac = prog.macro_of(m)
+    if mac in FAIL_MACROS:
+        return FAIL_MACROS[mac]
+    if mac == "FAIL_SYS":
+        txt = prog.text(m)          # the whole macro invocation: the last argument is the value
+        mm = re.search(r",\s*([A-Za-z_]\w*)\s*\)\s*;?\s*$", txt)
+        return mm.group(1) if mm else None
+    if mac is None and kids(m):
+        txt = prog.text(kids(m)[0]).strip().strip("()")
+        if re.match(r"^[A-Za-z_]\w*$", txt):
+            return txt
+    return None
+
+
+def internal_status_kinds(prog):
+    """failure convention of library functions, derived from how their failing returns are spelled:
+    'status' (EXIT_FAILURE) or 'sentinel:<c>' (ASM_ERROR / INSTR_ERROR / opd_error mark failure, other
+    values are quantities).  NA / NONE / true are not failures."""
+    out = {}
+    ce = ConstEval(prog)
+    for name, f in prog.lib_functions().items():
+        rt = qtype(f).split("(")[0].strip()
+        td = prog.typedefs.get(rt)
+        if td is not None:
+            rt = qtype(td)
+        if rt.endswith("*") or rt == "void":
+            continue
+        names = {}
+        for m in walk(prog.body(f)):
+            if m.get("kind") == "ReturnStmt" and kids(m):
+                fnm = failure_name_of_return(prog, m)
+                if fnm in FAILURE_NAMES:
+                    names[fnm] = ce.try_eval(strip(kids(m)[0], casts=True))
+        if not names:
+            continue
+        sent = [(n, v) for n, v in names.items() if FAILURE_NAMES[n] == "sentinel" and v is not None]
+        if sent:
+            out[name] = "sentinel:%d" % sent[0][1]
+        else:
+            out[name] = "status"
+    # functions that only pass a callee's status on (`return callee(...)`)
+    changed = True
+    while changed:
+        changed = False
+        for name, f in prog.lib_functions().items():
+            if name in out:
+                continue
+            rt = qtype(f).split("(")[0].strip()
+            if rt.endswith("*") or rt == "void":
+                continue
+            for m in walk(prog.body(f)):
+                if m.get("kind") == "ReturnStmt" and kids(m):
+                    e = strip(kids(m)[0], casts=True)
+                    if e.get("kind") == "CallExpr" and callee_name(e) in out:
+                        out[name] = out[callee_name(e)]
+                        changed = True
+                        break
+    return out
+
+
+def _sentinel_failed_when(prog, kind, op, other, truth):
+    c = int(kind.split(":")[1])
+    v = ConstEval(prog).try_eval(strip(other, casts=True)) if other is not None else None
+    if op == "==" and v == c:
+        return truth
+    if op == "!=" and v == c:
+        return not truth
+    if op == "<" and v == 0:
+        return truth
+    if op == ">=" and v == 0:
+        return not truth
+    return None
+
+
+_orig_failed_when = ErrDomain._failed_when
+
+
+def _failed_when_ext(self, u, op, other, truth, swapped):
+    if u.kind.startswith("sentinel:"):
+        if swapped and op in ("<", ">", "<=", ">="):
+            op = {"<": ">", ">": "<", "<=": ">=", ">=": "<="}[op]
+        return _sentinel_failed_when(self.prog, u.kind, op, other, truth)
+    return _orig_failed_when(self, u, op, other, truth, swapped)
+
+
+ErrDomain._failed_when = _failed_when_ext
+
+
+def c10_rules(chk, prog, tab=None):
+    from .core import walk_with_parents
+    kinds = internal_status_kinds(prog)
+    chk.analysed["status_functions"] = kinds
+    chk.floor("internal status-returning functions", len(kinds), 15)
+    lib = prog.lib_functions()
+    nsite = 0
+    for fn in sorted(lib):
+        f = lib[fn]
+        if not any(c.get("kind") == "CallExpr" and callee_name(c) in kinds for c in walk(prog.body(f))):
+            continue
+        reports = []
+        dom = analyse_function(prog, fn, kinds, lambda k, n, t, r=reports: r.append((k, n, t)))
+        sites = {id(s): s for s in dom.sites}
+        nsite += len(sites)
+        seen = set()
+        flagged_sites = set()
+        for k, node, text in reports:
+            if k != "CHK":
+                continue
+            callee = None
+            for cn in kinds:
+                if "%s()" % cn in text:
+                    callee = cn
+            key = "PROP/%s/%s" % (fn, callee or expr_str(node)[:30])
+            if key in seen:
+                continue
+            seen.add(key)
+            if "discarded" in text and callee in AUDITED_IGNORED:
+                chk.ok("PROP", key + "/audited", loc_str(node), "audited: %s" % AUDITED_IGNORED[callee])
+                continue
+            chk.bad("PROP", key, loc_str(node), "the result of every internal status-returning function is tested before the line is accepted", text)
+        for s_ in sites.values():
+            chk.ok("PROP", "PROP/site/%s/%s@%s" % (fn, callee_name(s_), loc_str(s_)), loc_str(s_), "call site analysed") \
+                if not any(callee_name(s_) in t for k, _, t in reports if k == "CHK") else None
+        # a path on which a callee failed must itself end in failure
+        mykind = kinds.get(fn)
+        for n, s in dom.rets:
+            # nothing unchecked may reach a return that does not itself report failure
+            rv = ConstEval(prog).try_eval(strip(kids(n)[0], casts=True)) if n.get("kind") == "ReturnStmt" and kids(n) else None
+            rkey = dom.key_of(kids(n)[0]) if n.get("kind") == "ReturnStmt" and kids(n) else None
+            for k_, v_ in s.items():
+                if isinstance(v_, U) and k_ != rkey and v_.callee not in AUDITED_IGNORED:
+                    reports_failure = rv is not None and ((mykind or "").startswith("sentinel:") and rv < 0 or not (mykind or "").startswith("sentinel:") and rv != 0)
+                    if not reports_failure:
+                        chk.bad("PROP", "PROP/unchecked/%s/%s" % (fn, v_.callee), loc_str(n),
+                                "no result of %s() reaches a non-failing return of %s untested" % (v_.callee, fn),
+                                "%s() at %s is never compared with its failure value on this path" % (v_.callee, loc_str(v_.node)))
+            failed = s.get("__failed")
+            if not failed or n.get("kind") != "ReturnStmt" or not kids(n):
+                continue
+            e = kids(n)[0]
+            v = ConstEval(prog).try_eval(strip(e, casts=True))
+            rk = dom.key_of(e)
+            if mykind and mykind.startswith("sentinel:"):
+                ok = v is not None and v < 0
+            elif fn in ("asm_create_instance",):
+                ok = v == 0
+            else:
+                ok = (v is not None and v != 0) or (v is None and rk is not None and s.get(rk) in (FAILED, "mixed"))
+            chk.require(ok, "PROP", "PROP/return/%s@%s" % (fn, loc_str(n)), loc_str(n),
+                        "when %s() (%s) reports failure, %s returns a failure value too" % (failed[0], failed[1], fn),
+                        "returns %s" % expr_str(e))
+    chk.floor("status call sites", nsite, 35)
+    # a failure constant must not be returned through a result consumed as a quantity
+    ce = ConstEval(prog)
+    for fn, kd in sorted(kinds.items()):
+        if not kd.startswith("sentinel:"):
+            continue
+        f = lib[fn]
+        for m in walk(prog.body(f)):
+            if m.get("kind") == "ReturnStmt" and kids(m):
+                v = ce.try_eval(strip(kids(m)[0], casts=True))
+                fnm = failure_name_of_return(prog, m)
+                if fnm == "EXIT_FAILURE":
+                    chk.bad("PROP", "PROP/quantity/%s" % fn, loc_str(m), "%s reports failure through its sentinel, never through a positive status its caller would read as a count" % fn,
+                            "returns EXIT_FAILURE (%s) where callers expect a count or the sentinel" % v)
+    regerr_rule(chk, prog)
+
+
+def regerr_rule(chk, prog):
+    from .core import walk_with_parents
+    ce = ConstEval(prog)
+    if "reg_error" not in prog.enums:
+        raise AnalysisBroken("enumerator reg_error not found")
+    lib = prog.lib_functions()
+    # (a) where register strings are converted
+    stores = {}     # field -> max constant loop bound
+    for fn, f in lib.items():
+        for m, parents in walk_with_parents(prog.body(f)):
+            if m.get("kind") == "BinaryOperator" and m.get("opcode") == "=":
+                l, r = strip(kids(m)[0]), strip(kids(m)[1], casts=True)
+                if l.get("kind") == "MemberExpr" and l.get("name") in ("reg", "index") and r.get("kind") == "CallExpr" and callee_name(r) == "str_to_reg":
+                    b = _loop_bound(prog, parents)
+                    stores[l["name"]] = max(stores.get(l["name"], 0), b or 0)
+    # (b) where they are validated
+    tests = {}
+    ntest = 0
+    for fn, f in lib.items():
+        for m, parents in walk_with_parents(prog.body(f)):
+            if m.get("kind") == "BinaryOperator" and m.get("opcode") in ("==", "!="):
+                sides = [strip(x, casts=True) for x in kids(m)]
+                for a, b in (sides, sides[::-1]):
+                    if ref_name(b) == "reg_error":
+                        ntest += 1
+                        mask = a.get("kind") == "BinaryOperator" and a.get("opcode") == "&" and any(ref_name(strip(x, casts=True)) == "reg_error" for x in kids(a))
+                        subject = None
+                        for x in walk(a):
+                            if x.get("kind") == "MemberExpr" and x.get("name") in ("reg", "index"):
+                                subject = x["name"]
+                        if subject:
+                            chk.require(mask, "REGERR", "REGERR/mask/%s/%s" % (fn, subject), loc_str(m),
+                                        "the register error flag is tested with a mask (str_to_reg ORs the width class into the value it returns)",
+                                        expr_str(m))
+                            if mask:
+                                tests[subject] = max(tests.get(subject, 0), _loop_bound(prog, parents) or 0)
+    chk.floor("reg_error tests", ntest, 2)
+    for fld, bound in sorted(stores.items()):
+        chk.require(tests.get(fld, 0) >= bound and bound > 0, "REGERR", "REGERR/covered/%s" % fld, "src/parser.c",
+                    "every operand slot whose .%s is converted from text (%d slots) is validated against reg_error" % (fld, bound),
+                    "validated slots: %d" % tests.get(fld, 0))
+    # premise: str_to_reg can return reg_error combined with class bits
+    f = lib.get("str_to_reg")
+    if f is not None:
+        combined = any(m.get("kind") == "ReturnStmt" and kids(m) and strip(kids(m)[0], casts=True).get("kind") == "BinaryOperator" and
+                       strip(kids(m)[0], casts=True).get("opcode") == "|" for m in walk(prog.body(f)))
+        chk.analysed["str_to_reg_returns_class_or_lookup"] = combined
+    # every caller of the validator fails when it reports an error: covered by PROP
+
+
+def _loop_bound(prog, parents):
+    """constant upper bound N of an enclosing `for (i = 0; i < N; i++)`"""
+    for p in reversed(parents):
+        if p.get("kind") == "ForStmt":
+            raw = p.get("inner", [])
+            c = raw[2] if len(raw) > 2 else None
+            if c:
+                c = strip(c)
+                if c.get("kind") == "BinaryOperator" and c.get("opcode") in ("<", "<="):
+                    v = ConstEval(prog).try_eval(kids(c)[1])
+                    if v is not None:
+                        return v + (1 if c["opcode"] == "<=" else 0)
+    return None
